@@ -1010,6 +1010,9 @@ class _ColumnsParsedFmt:
             result.min_w = -1
             result.max_w = -1
         elif width_fmt:
+            if width_fmt.endswith(')') and '(' in width_fmt:
+                # '3-10(7)': '(7)' is the actual width reported by to_fmt_str
+                width_fmt = width_fmt[:width_fmt.index('(')]
             chunks = width_fmt.split('-')
             if len(chunks) > 2:
                 raise ValueError(f"Invalid width range: '{width_fmt}'")
